@@ -41,7 +41,15 @@ func (msg *message) snapshot() *message {
 	}
 }
 
-func (msg *message) fetch(w *imapserver.FetchResponseWriter, options *imap.FetchOptions) error {
+func (msg *message) fetch(w *imapserver.FetchResponseWriter, options *imap.FetchOptions) (err error) {
+	// Always close the message writer, even when writing a body section
+	// fails: it holds the connection's response encoder until then
+	defer func() {
+		if closeErr := w.Close(); err == nil {
+			err = closeErr
+		}
+	}()
+
 	w.WriteUID(msg.uid)
 
 	if options.Flags {
@@ -75,7 +83,7 @@ func (msg *message) fetch(w *imapserver.FetchResponseWriter, options *imap.Fetch
 
 	// TODO: BinarySection, BinarySectionSize
 
-	return w.Close()
+	return nil
 }
 
 func (msg *message) envelope() *imap.Envelope {
